@@ -685,8 +685,52 @@ def check_tables(idx, run):
                   f"'{cond}'", loc(mod, glt))
 
 
+def check_trailing_comment(idx, run):
+    """C18.R6: a statement line may end in a comment (`x = 1 ! why`).  A
+    continuation marker placed inside that comment is part of the comment,
+    so the remainder starts a new, meaningless statement.  The wrapper has
+    to look for the start of a trailing comment before it chooses where to
+    break a statement line."""
+    mod = idx.module("src/psyclone/line_length.py")
+    cls = None
+    for c in mod.classes.values() if hasattr(mod, "classes") else []:
+        if c.name == "FortLineLength":
+            cls = c
+    if cls is None:
+        cls = idx.get_class("psyclone.line_length.FortLineLength")
+    looks = False
+    for name in ("process", "_get_line_type"):
+        func = cls.methods.get(name)
+        if func is None:
+            continue
+        for node in ast.walk(func):
+            if isinstance(node, ast.Constant) and isinstance(
+                    node.value, str) and "!" in node.value and \
+                    not node.value.lstrip().startswith(("!$", "^")):
+                looks = True
+    fbp = idx.function("psyclone.line_length.find_break_point") \
+        if hasattr(idx, "function") else None
+    init = cls.methods.get("__init__")
+    patterns = [ast.unparse(c.args[0]) for c in ast.walk(init)
+                if isinstance(c, ast.Call) and
+                ast.unparse(c.func) == "re.compile" and c.args]
+    anchored = all("^" in p for p in patterns)
+    run.check(
+        "C18.R6", looks or not anchored, "FortLineLength.process",
+        "a trailing comment is recognised before a statement line is "
+        "broken",
+        "a statement line is only classified by how it *starts* "
+        f"(patterns {patterns}); a trailing comment is wrapped like code: "
+        "`x = y + z  ! a trailing comment ..., with commas, ...` becomes "
+        "`x = y + z  ! a trailing comment ..., &` / `&with commas, ...`: "
+        "the `&` is inside the comment, so the second line is parsed as a "
+        "statement and the program no longer compiles",
+        loc(cls.module, cls.methods["process"]))
+
+
 def check(idx, run):
     run.explanation = __doc__
+    check_trailing_comment(idx, run)
     check_find_break_point(idx, run)
     func, _ = check_process(idx, run)
     check_idempotent(idx, run, func)
@@ -694,5 +738,5 @@ def check(idx, run):
     check_tables(idx, run)
     run.trusted_base = ["CPython ast parser", "str.rfind / slice semantics",
                         "free-form continuation rules as transcribed"]
-    run.assumptions = ["meaning preservation of the wrapped text is not "
-                       "decided (character literals, trailing comments)"]
+    run.assumptions = ["beyond R6 (trailing comments) meaning preservation "
+                       "of the wrapped text is not decided"]
